@@ -399,6 +399,12 @@ func (nt *Net) startNode(n *Node) bool {
 	case <-n.dead:
 		return false
 	}
+	if k, over := n.ticker.VerifWouldBlockBeforeStart(); over && !n.Byz {
+		// the harness ticker never blocks; the real one hands timeouts over through a bounded channel
+		// that is drained only once the ticker runs
+		nt.Mon.report("C07", map[string]string{"kind": "start-blocks-on-the-timeout-ticker", "site": "ConsensusState.OnStart"},
+			fmt.Sprintf("node %d scheduled %d timeouts during its start before the timeout ticker was started: with the real ticker (channel of %d) the start never returns", n.Idx, k, k-1))
+	}
 	n.peers = map[int]*p2p.Peer{}
 	for _, o := range nt.Nodes {
 		if o.Idx == n.Idx {
